@@ -437,6 +437,22 @@ class CWorld:
         self.held_info[x] = (seams.CLOCK.now, self.ref_tokens.epoch)
         self.ref_tokens.issue(token, src, pk, now())
 
+    def token_of_other_node(self, x: str) -> bytes | None:
+        """x asks node R (another DHT overlay of this process) for values: the token in R's answer."""
+        ov, src, _ = self.who(x)
+        self.ident += 1
+        packet = ov.ezr_pack(FindRequestPayload.msg_id, FindRequestPayload(self.ident, src, self.keys[0], 0, True))
+        n0 = len(self.net.wire_log)
+        self.net.inject(src, tuple(self.nodes["R"].address), packet)
+        self.net.flush()
+        for dg in self.net.wire_log[n0:]:
+            if dg.sender is self.nodes["R"].endpoint and tuple(dg.dst) == tuple(src) \
+                    and dg.data[22] == FindResponsePayload.msg_id:
+                off = self.body_offset(dg.data)
+                if struct.unpack_from(">I", dg.data, off)[0] == self.ident:
+                    return dg.data[off + 4:off + 24]
+        return None
+
     def make_values(self, variant: str) -> list[bytes]:
         a, m = self.ov["A"], self.ov["M"]
 
@@ -479,7 +495,10 @@ class CWorld:
 
     def store(self, x: str, token_choice: str, variant: str, k: int) -> str:
         ov, src, pk = self.who(x)
-        token = RANDOM_TOKEN if token_choice == "rnd" else self.held.get(x if token_choice == "own" else token_choice)
+        if token_choice == "@R":
+            token = self.token_of_other_node(x)       # a token that ANOTHER node (R) issued to this very requester
+        else:
+            token = RANDOM_TOKEN if token_choice == "rnd" else self.held.get(x if token_choice == "own" else token_choice)
         if token is None:
             self.found.append(("harness:no-token", f"{token_choice} holds no token"))
             return "skipped"
@@ -681,7 +700,9 @@ def community_alphabet(name: str) -> list:
              # A's genuine token presented with A's key from a near-identical address
              *[("st", x, "A", f"p:{x}", 0) for x in NEAR_A],
              # an adversary with a perfectly good token stores a forgery of a value S may have verified before
-             ("st", "M", "own", "forge1", 0)]
+             ("st", "M", "own", "forge1", 0),
+             # a token that another node of the same process issued to the same requester
+             ("st", "A", "@R", "p:A", 0)]
     if name == "full":
         al = token_events + time_events + token_stores + value_stores + other
     elif name == "forgery":
